@@ -273,37 +273,38 @@ def check_case(case, ctx):
                                                     f'{conf.get("role")}/{conf.get("mode")}')
             if items[n] == 'proc':
                 got_t = {t.lower() for t in c['targets']}
-                ref_t, amb = refgraph.proc_targets(ix, n, cfg['config'], full_parse=True)
+                # targets == non-blocked dependencies: disable/block keys are applied to the *true* item name of
+                # every callee (description ground truth)
+                ref_t, amb = refgraph.proc_targets(ix, n, cfg['config'], full_parse=True, true_scopes=True)
                 if got_t - amb != ref_t - amb:
-                    ctx.fail('C22:targets', case, f'{n}: targets {sorted(got_t)} expected {sorted(ref_t)} '
-                                                  f'(ambiguous aliases {sorted(amb)})')
-                # targets == non-blocked dependencies, decided on the *true* item name of every callee (description
-                # ground truth), both directions; renamed aliases are left to the model above
-                off = [k.lower() for k in (conf.get('disable') or [])] + [k.lower() for k in (conf.get('block') or [])]
-                m_, r_ = ix.routine[n]
-                mn_ = m_['name'].lower() if m_ else ''
-                qualified = {o['local'].lower() for sc in ([m_] if m_ else []) + [r_] for imp in sc['imports']
-                             for o in imp['only'] or ()}
-                for s in r_['body']:
-                    if s['k'] not in ('call', 'xcall', 'fcall', 'gcall') or s.get('via') in ('self', 'back'):
-                        continue
-                    nm = s['name'].lower()
-                    tscope, tlocal = s['target'].lower().split('#')
-                    if nm in amb or nm != tlocal:
-                        continue
-                    blocked = bool(refgraph.match_keys(s['target'], off, patterns=True, parents=True))
-                    if blocked != (nm in got_t):
-                        continue
-                    what = 'blocked-callee-listed' if blocked else 'active-callee-missing'
-                    if nm not in qualified and tscope != mn_:
-                        # one root cause (listed): Item._get_children matches a callee that is not imported by name
-                        # in the scope of the *calling* item (free routine called from a module procedure,
-                        # procedure reached through an unqualified USE)
-                        ctx.fail('C22:targets:callee-matched-in-scope-of-caller', case,
-                                 f'{n}: {what}: {s["target"]} with disable+block={off}: targets {sorted(got_t)}')
+                    m_, r_ = ix.routine[n]
+                    mn_ = m_['name'].lower() if m_ else ''
+                    qualified = {o['local'].lower() for sc in ([m_] if m_ else []) + [r_] for imp in sc['imports']
+                                 for o in imp['only'] or ()}
+                    # callees that are not imported by name and do not live in the scope of the caller:
+                    # free routines (implicit or explicit interface) / procedures reached through an unqualified USE
+                    calls_ = [s for s in r_['body'] if s['k'] in ('call', 'xcall', 'fcall', 'gcall')
+                              and s.get('via') not in ('self', 'back') and s['name'].lower() not in qualified]
+                    free_ = {s['name'].lower() for s in calls_ if mn_ and s['target'].startswith('#')}
+                    if mn_:
+                        free_ |= {fn.lower() for fn in r_['intfb'] if fn.lower() not in qualified}
+                    unq_ = {s['name'].lower() for s in calls_ if s['target'].lower().split('#')[0] not in ('', mn_)}
+                    if any(imp['only'] is None for sc in ([m_] if m_ else []) + [r_] for imp in sc['imports']):
+                        # with an unqualified USE in scope the provider of any unimported name is unknown to loki
+                        free_, unq_ = set(), free_ | unq_
+                    diff = (got_t ^ ref_t) - amb
+                    what = f'{n}: targets {sorted(got_t)} expected {sorted(ref_t)} (ambiguous aliases {sorted(amb)}); ' \
+                           f'disable={conf.get("disable")} block={conf.get("block")}'
+                    if diff <= free_ | unq_:
+                        # one root cause, two listed variants (the proposed repair covers the first only):
+                        # Item._get_children matches a callee that is not imported by name in the scope of the
+                        # *calling* item
+                        if diff & free_:
+                            ctx.fail('C22:targets:free-routine-matched-in-scope-of-caller', case, what)
+                        if diff & unq_:
+                            ctx.fail('C22:targets:unimported-callee-with-unqualified-use-in-scope', case, what)
                     else:
-                        ctx.fail(f'C22:targets:{what}', case,
-                                 f'{n}: {s["target"]} with disable+block={off}: targets {sorted(got_t)}')
+                        ctx.fail('C22:targets', case, what)
             if c['sub'] is not None:
                 flt2 = set(flt)
                 if 'proc' in flt2:
